@@ -219,6 +219,7 @@ impl ThreadLocalCache {
     /// Allocate memory from thread-local cache
     fn allocate(&mut self, size: usize, config: &ThreadLocalPoolConfig) -> Result<NonNull<u8>> {
         // Try size class free list first
+        let mut size = size;
         if let Some(list_index) = self.size_to_list_index(size) {
             if let Some(ptr) = self.free_lists[list_index].pop() {
                 if let Some(stats) = &self.stats {
@@ -226,6 +227,8 @@ impl ThreadLocalCache {
                 }
                 return Ok(ptr);
             }
+            // Blocks of one class are interchangeable once freed: carve the full class size
+            size = TLS_SIZE_CLASSES[list_index];
         }
 
         // Try hot area allocation
